@@ -109,12 +109,15 @@ Lemma c14_extents_convert_ok : forall p' p dyn, c14_spec_compatible p' (c14_exte
 Proof. intros. unfold c14_extents_convert. apply c14_extents_ctor_all; auto. Qed.
 
 (* ------------------------------------------------------------------ enumeration of the index space *)
-Lemma c14_in_zrange : forall e i, In i (c14_zrange e) <-> 0 <= i < e.
+Lemma c14_in_zrange_from : forall c k i, In i (c14_zrange_from k c) <-> k <= i < k + Z.of_nat c.
 Proof.
-  intros e i. unfold c14_zrange. rewrite in_map_iff. split.
-  - intros [n [<- H]]. apply in_seq in H. lia.
-  - intros H. exists (Z.to_nat i). split; [lia|]. apply in_seq. lia.
+  induction c as [|c IH]; intros k i; cbn [c14_zrange_from In].
+  - split; [tauto|lia].
+  - rewrite IH. lia.
 Qed.
+
+Lemma c14_in_zrange : forall e i, In i (c14_zrange e) <-> 0 <= i < e.
+Proof. intros e i. unfold c14_zrange. rewrite c14_in_zrange_from. lia. Qed.
 
 Lemma c14_in_tuples : forall E t, In t (c14_tuples E) <-> c14_valid t E.
 Proof.
